@@ -285,4 +285,4 @@ def straightline(stmts, env, scenario, opaque=None, returns=None):
 
 
 def _is_nonnumeric(e):
-    return isinstance(e, ast.Call) or isinstance(e, (ast.Dict, ast.List, ast.ListComp, ast.DictComp))
+    return isinstance(e, ast.Call) or isinstance(e, (ast.Dict, ast.List, ast.ListComp, ast.DictComp, ast.Compare, ast.BoolOp))
